@@ -28,7 +28,7 @@ func init() { core.Register(check{}) }
 func (check) ID() string    { return "C15" }
 func (check) Level() string { return "exploration" }
 func (check) Rule() string {
-	return "bounded-exhaustive enumeration of generated proto3 programs (families: services, numbers, names, kinds, recursion, targets, mapentry, collide) x ParseServiceMode{Last,First,Combine} x aspect{service, structure, lookups}; the structure aspect walks dynamicgo's descriptor graph in lock-step with the reference (jhump desc) graph from every method input/output; the lookups aspect evaluates ByNumber for every n in 0..max+2 and ByName/ByJSONName for every key of the alphabet {declared names and JSON names, every proper prefix incl. the empty key, every one-byte extension and every single-position substitution over 9 symbols (quick) / all 256 byte values and a 2-byte rune (thorough)} on every reachable message, and LookupMethodByName over the same alphabet of the method names. A case is non-trivial if it is distinct by (program, mode, aspect) and compared at least one accessor. Later additions: numbers on powers of two, sparse numbers in every declaration order, options unrelated to the descriptor, parses with the includes map left behind by an earlier parse (service and structure aspects). Round 8: a size program with 10600 references to one already compiled leaf type. Round 9: header-style and punctuation json_names. Round 10: the other case style of every declared key in the lookup alphabet."
+	return "bounded-exhaustive enumeration of generated proto3 programs (families: services, numbers, names, kinds, recursion, targets, mapentry, collide) x ParseServiceMode{Last,First,Combine} x aspect{service, structure, lookups}; the structure aspect walks dynamicgo's descriptor graph in lock-step with the reference (jhump desc) graph from every method input/output; the lookups aspect evaluates ByNumber for every n in 0..max+2 and ByName/ByJSONName for every key of the alphabet {declared names and JSON names, every proper prefix incl. the empty key, every one-byte extension and every single-position substitution over 9 symbols (quick) / all 256 byte values and a 2-byte rune (thorough)} on every reachable message, and LookupMethodByName over the same alphabet of the method names. A case is non-trivial if it is distinct by (program, mode, aspect) and compared at least one accessor. Later additions: numbers on powers of two, sparse numbers in every declaration order, options unrelated to the descriptor, parses with the includes map left behind by an earlier parse (service and structure aspects). Round 8: a size program with 10600 references to one already compiled leaf type. Round 9: header-style and punctuation json_names. Round 10: the other case style of every declared key in the lookup alphabet. Round 11: a json_name longer than every proto name of its message."
 }
 func (check) Assumptions() []string {
 	return []string{
